@@ -581,6 +581,11 @@ func (res *Response) flush(conn io.Writer) error {
 		}
 		pdata = mempool.AppendString(pdata, "0\r\n")
 		for k, v := range res.trailer {
+			// a trailer is usually set after the body has been written,
+			// i.e. after the head was encoded: send its final value.
+			if cur := res.header.Get(k); cur != "" {
+				v = cur
+			}
 			pdata = mempool.AppendString(pdata, k)
 			pdata = mempool.AppendString(pdata, ": ")
 			pdata = mempool.AppendString(pdata, v)
